@@ -206,6 +206,124 @@ def rdac_run(args):
     return {"init": {}, "ev": [sut.event(a, d) for a, d in steps]}
 
 
+# ------------------------------------------------------------------------------ both handlers on one storage (growth)
+
+
+class StartupSut:
+    """P2P and RDAC handler sharing one RepeaterStorage, as the gateway wires them"""
+
+    def __init__(self, rng):
+        from okdmr.dmrlib.protocols.hytera.p2p_datagram_protocol import P2PDatagramProtocol
+        from okdmr.dmrlib.protocols.hytera.rdac_datagram_protocol import RDACDatagramProtocol
+        from okdmr.dmrlib.storage.repeater_storage import RepeaterStorage
+        stub_snmp()
+        self.rng = rng
+        self.st = RepeaterStorage()
+        self.done = []
+        self.p = P2PDatagramProtocol(storage=self.st, p2p_port=P2P_PORT, rdac_port=RDAC_PORT)
+        self.r = RDACDatagramProtocol(storage=self.st, callback=lambda i: self.done.append(i))
+        self.ptr, self.rtr = FakeTransport(), FakeTransport()
+        self.p.connection_made(self.ptr)
+        self.r.connection_made(self.rtr)
+
+    project = P2PSut.project
+
+    def p2p(self, src, d):
+        self.ptr.sent.clear()
+        outcome = "ok"
+        data = p2p_build(self.rng, d)
+        try:
+            self.p.datagram_received(data, tuple(src))
+        except Exception:  # noqa
+            outcome = "raise"
+        sent = []
+        for o, dst in self.ptr.sent:
+            k, port = p2p_classify(bytes(o), data)
+            sent.append({"kind": k, "dst": addr_rec(dst) if dst else {"ip": "", "port": 0}, "port": port})
+        return {"h": "p2p", "op": "recv", "src": addr_rec(src), "d": d, "cfg": addr_rec(src),
+                "out": {"sent": sent, "out": outcome, "recs": self.project()}}
+
+    def rdac(self, src, d):
+        self.rtr.sent.clear()
+        self.done.clear()
+        outcome = "ok"
+        try:
+            self.r.datagram_received(rdac_build(self.rng, d), tuple(src))
+        except Exception:  # noqa
+            outcome = "raise"
+        rpt = self.st.match_incoming(tuple(src))
+        return {"h": "rdac", "ip": src[0], "src": addr_rec(src), "d": d, "recs": self.project(),
+                "out": {"st": {k: int(v) for k, v in self.r.step.items()}, "nsent": len(self.rtr.sent), "done": len(self.done),
+                        "doneIsPeer": bool(self.done) and rpt is not None and all(x == rpt.id for x in self.done), "out": outcome}}
+
+
+def startup_run(args):
+    seed, steps = args
+    import random
+    core.setup_repo_path()
+    sut = StartupSut(random.Random(seed))
+    return {"init": {}, "ev": [sut.p2p(src, d) if h == "p2p" else sut.rdac(src, d) for h, src, d in steps]}
+
+
+def startup_history(rng, n):
+    """2..3 repeaters each following the start-up script (registration, RDAC request, the RDAC run on the RDAC port, DMR request,
+    pings) at their own pace, interleaved, with deviations: requests before registration, RDAC traffic from addresses that never
+    registered, resets, unexpected responses, a repeater that shares its IP with another one"""
+    ips = rng.sample(["ip1", "ip2", "ip3"], rng.randrange(2, 4))
+    reps = [{"p": (ip, P2P_PORT), "r": (ip, RDAC_PORT if rng.random() < 0.7 else 40000 + k), "script": None} for k, ip in enumerate(ips)]
+    if rng.random() < 0.4:
+        reps.append({"p": (ips[0], P2P_PORT + 1), "r": (ips[0], RDAC_PORT + 1), "script": None})       # behind the same address
+    P = lambda cls: {"cls": cls, "ovf": False}
+    for rp in reps:
+        sc = []
+        if rng.random() < 0.25:
+            sc += [("p2p", rp["p"], P(rng.choice(["rdac", "dmr", "ping"])))]          # asks before registering
+        if rng.random() < 0.85:
+            sc += [("p2p", rp["p"], P("reg"))]
+        sc += [("p2p", rp["p"], P("ping"))] * rng.choice([0, 1])
+        sc += [("p2p", rp["p"], P("rdac"))]
+        sc += [("rdac", rp["r"], d) for d in path_to(rng.choice([14, 14, 14, 6, 10]))]
+        sc += [("p2p", rp["p"], P("dmr")), ("p2p", rp["p"], P("ping"))]
+        rp["script"] = sc
+    steps = []
+    while len(steps) < n and any(rp["script"] for rp in reps):
+        rp = rng.choice([x for x in reps if x["script"]])
+        k = rng.random()
+        if k < 0.12:
+            steps.append(("rdac", rp["r"], rng.choice([{"cls": "reset", "k": "none", "long": False, "zero": rng.random() < 0.5},
+                                                      {"cls": "resp", "k": rng.choice(["FD", "10", "00", "FA"]), "long": rng.random() < 0.7, "zero": False},
+                                                      {"cls": "other", "k": "none", "long": False, "zero": False}])))
+        elif k < 0.2:
+            steps.append(("p2p", rng.choice([rp["p"], rp["r"], ("ip9", P2P_PORT)]), P(rng.choice(["ping", "dmr", "rdac", "ack", "unk", "garbage"]))))
+        else:
+            steps.append(rp["script"].pop(0))
+    return steps
+
+
+def startup_phase(ctx):
+    n, ln = (150, 120) if ctx.quick else (2500, 250)
+    jobs = [(ctx.seed * 9176 + i, startup_history(ctx.rng, ctx.rng.randrange(10, ln))) for i in range(n)]
+    with Pool(core.NCPU) as pool:
+        hist = pool.map(startup_run, jobs, chunksize=8)
+    completed = 0
+    for t, j in zip(hist, jobs):
+        t["seed"], t["steps"] = j
+        for e in t["ev"]:
+            completed += e["out"].get("done", 0) if e["h"] == "rdac" else 0
+            ctx.count(core.digest(["startup", e["h"], e["d"], e["out"].get("st") or [x["kind"] for x in e["out"]["sent"]]]))
+    ctx.note("startup_histories", len(hist))
+    ctx.note("startup_rdac_runs_completed", completed)
+    if completed < 20:
+        raise core.MachineryError("start-up histories hardly ever complete an RDAC run: the growth phase would be vacuous")
+    for part in core.chunks(hist, 300):
+        for tid, l, why in ctx.validate_traces("Trace_Startup", "Trace_Startup.cfg", part):
+            t = part[tid]
+            e = t["ev"][l - 1]
+            ctx.violation(f"startup/{why}/{e['h']}/{e['d']['cls']}",
+                          f"both handlers on one storage: step {l} ({e['h']} handler, datagram {json.dumps(e['d'])} from {e['src']}) breaks {why}",
+                          {"handler": "startup", "seed": t["seed"], "steps": t["steps"][:l], "clause": why, "origin": "start-up history"})
+
+
 # ------------------------------------------------------------------------------ run
 
 P2PCFG = """SPECIFICATION Spec
@@ -373,11 +491,15 @@ def run(ctx):
             ctx.count(core.digest(["rdac", e["d"], e["out"]["st"].get(e["ip"]), e["out"]["done"]]))
     for part in core.chunks(hist, 300):
         judge(ctx, part, ctx.validate_traces("Trace_RDAC", "Trace_RDAC.cfg", part), "random history", "rdac")
+    startup_phase(ctx)
 
 
 def replay(ctx, rec):
     r = rec["record"]
-    if r["handler"] == "p2p":
+    if r["handler"] == "startup":
+        t = startup_run((r["seed"], [(s[0], tuple(s[1]), s[2]) for s in r["steps"]]))
+        rej = ctx.validate_traces("Trace_Startup", "Trace_Startup.cfg", [t])
+    elif r["handler"] == "p2p":
         t = p2p_run((r["seed"], [(s[0], tuple(s[1]), s[2], tuple(s[3]) if s[3] else None) for s in r["steps"]]))
         rej = ctx.validate_traces("Trace_P2P", "Trace_P2P.cfg", [t])
     else:
